@@ -221,7 +221,10 @@ def interpret(d, argtoks, required):
                     return "REJECT", "parameter-missing", None
                 if not type_ok(pk, p["type"]):
                     if p["type"] == "stringlist" and pk == "string":
-                        unspec = unspec or "string-for-stringlist-parameter"
+                        # RFC 5228 2.4.2.1: a single string is a string list; the README
+                        # writes a parameter's type as a bare name and the suite pins
+                        # `vacation :addresses "a@b"` for a built-in declared that way
+                        single_for_list = True
                     else:
                         return "REJECT", "parameter-type", None
                 if "values" in p and pk in ("string", "number") and \
